@@ -31,10 +31,20 @@ Proof.
   unfold reads_source_only. intros s s' (l & E & F) H. rewrite E, forallb_app, F, H. reflexivity.
 Qed.
 
+Lemma apply_effect_log : forall e s, log (apply_effect e s) = log s.
+Proof.
+  induction e as [p | p | | l | paths inner IH] using effect_ind2; intros s; try reflexivity.
+  rewrite apply_scope_eq.
+  assert (E : forall s0, log (apply_effects inner s0) = log s0).
+  { unfold apply_effects. induction IH as [| x r Hx Hr IHr]; intros s0; simpl; [reflexivity |]. rewrite IHr. apply Hx. }
+  unfold scoped, with_sys_path.
+  destruct (is_nil paths && sys_path_noop_when_empty); simpl; rewrite E; reflexivity.
+Qed.
+
 Lemma apply_effects_log : forall es s, log (apply_effects es s) = log s.
 Proof.
   unfold apply_effects. induction es as [| e r IH]; intros s; simpl; [reflexivity |].
-  rewrite IH. destruct e; reflexivity.
+  rewrite IH. apply apply_effect_log.
 Qed.
 
 Lemma import_prefixes_nr : forall w rest pre s, nr s (snd (import_prefixes w pre rest s)).
